@@ -148,6 +148,15 @@ def _sequence_case(w, nsec, ops, ansi, prefill=False):
                 m.append(pad + t if t else t)
                 appended.append(pad + t if t else t)
                 kind = None
+            if kind == "write_hidden":             # a write that its verbosity flag (or quiet mode) suppresses: nothing is shown and nothing is booked
+                from clikit.api.io import flags as _F
+                if li % 2:
+                    s.write_line(t or "h", _F.VERY_VERBOSE)
+                else:
+                    s.set_quiet(True)
+                    s.write_line(t or "h")
+                    s.set_quiet(False)
+                kind = None
             if kind == "overwrite_same":           # overwrite with exactly the first line the section currently shows
                 kind = "overwrite"
                 if m and m[0].strip() != "":
@@ -202,7 +211,19 @@ def _sequence_case(w, nsec, ops, ansi, prefill=False):
                     del m[-n:]
             if scope is not None:
                 scope.__exit__(None, None, None)
-        data = st.fetch()
+        if ansi and prefill:
+            # afterwards the youngest section is given a formatter without ANSI support: from then on it is an output without ANSI support -
+            # whatever it does next emits no control code
+            mark = len(st.fetch())
+            secs[-1].set_formatter(PlainFormatter())
+            secs[-1].clear()
+            secs[-1].overwrite("zz")
+            tail_bytes = st.fetch()[mark:]
+            if "\x1b" in tail_bytes or not tail_bytes.endswith("zz\n"):
+                return False
+            data = st.fetch()[:mark]
+        else:
+            data = st.fetch()
         if not ansi:
             # degrades to plain appended lines without any control code
             return "\x1b" not in data and data == "".join(x + "\n" for x in appended)
@@ -237,7 +258,7 @@ def sequence(s1: int, k1: int, l1: int, s2: int, k2: int, l2: int, s3: int, k3: 
     return untraced(_sequence_case, PART["w"], nsec, ops, PART["ansi"], PART.get("prefill", False))
 
 
-KINDS_X = KINDS + ["write_tail", "overwrite_same", "clear0", "write_tagged"]
+KINDS_X = KINDS + ["write_tail", "overwrite_same", "clear0", "write_tagged", "write_hidden"]
 LENS_X = [1, 3]           # indices into the length menu: 1 character, W + 1 characters
 INDS_X = [0, 2]
 
@@ -245,14 +266,14 @@ INDS_X = [0, 2]
 def sequence_indent(s1: int, k1: int, l1: int, i1: int, s2: int, k2: int, l2: int, i2: int, s3: int, k3: int, l3: int, i3: int) -> bool:
     """
     pre: 0 <= s1 < PART["nsec"] and 0 <= s2 < PART["nsec"] and 0 <= s3 < PART["nsec"]
-    pre: 0 <= k1 < 10 and 0 <= k2 < 10 and 0 <= k3 < 10
+    pre: 0 <= k1 < 11 and 0 <= k2 < 11 and 0 <= k3 < 11
     pre: 0 <= l1 < 2 and 0 <= l2 < 2 and 0 <= l3 < 2 and 0 <= i1 < 2 and 0 <= i2 < 2 and 0 <= i3 < 2
     pre: s1 == PART["s1"] and i1 == PART["i1"] and (PART.get("k1") is None or k1 == PART["k1"])
     pre: PART["nops"] > 2 or (s3 == 0 and k3 == 0 and l3 == 0 and i3 == 0)
     post: _
     """
     nsec = PART["nsec"]
-    ops = [(conc_int(s, 0, nsec - 1), KINDS_X[conc_int(k, 0, 9)], LENS_X[conc_int(l, 0, 1)], INDS_X[conc_int(i, 0, 1)])
+    ops = [(conc_int(s, 0, nsec - 1), KINDS_X[conc_int(k, 0, 10)], LENS_X[conc_int(l, 0, 1)], INDS_X[conc_int(i, 0, 1)])
            for s, k, l, i in ((s1, k1, l1, i1), (s2, k2, l2, i2), (s3, k3, l3, i3))][: PART["nops"]]
     return untraced(_sequence_case, PART["w"], nsec, ops, PART["ansi"], PART.get("prefill", False))
 
@@ -470,7 +491,7 @@ def conditions(tier):
     for w, nsec, nops, ansi, prefill in iconf:
         for s1 in range(nsec):
             for i1 in range(2):
-                for k1 in ([None] if nops == 2 else range(10)):
+                for k1 in ([None] if nops == 2 else range(11)):
                     conds.append({"name": "sequence_indent[w=%d,%dsec,%dops,%s,first=s%d.indent%d%s]" % (w, nsec, nops, "ansi" if ansi else "plain", s1, INDS_X[i1], "" if k1 is None else "." + KINDS_X[k1]),
                                   "fn": sequence_indent, "timeout": t, "part": {"w": w, "nsec": nsec, "nops": nops, "ansi": ansi, "s1": s1, "i1": i1, "k1": k1, "prefill": prefill},
                                   "bounds": "width %d, %d sections%s, %d operations over sections x %r x text lengths {1, W+1} x indentation scope {0, 2} on the section; %s" % (
